@@ -308,7 +308,7 @@ def interpolation_contract(col, g, k):
         if not np.allclose(got, want, rtol=1e-7, atol=1e-9):
             return False, "derivative through the logarithmic variant is wrong"
         # f = exp(s p), p of degree three in each variable: value and the derivatives of order 1..3 in each single variable
-        s_ = 0.15
+        s_ = 2.0 / max(1.0, float(np.max(np.abs(poly(grid.points)))))        # keeps the exponent within [-2, 2] on the whole grid
         pos3 = np.exp(s_ * poly(grid.points))
         f0 = np.exp(s_ * poly(q))
         for axis in range(3):
